@@ -1,5 +1,5 @@
 import numpy as np
-from ldpc import BpOsdDecoder
+from ldpc import BpOsdDecoder, mod2
 from panqec.codes import StabilizerCode
 from panqec.error_models import BaseErrorModel
 from panqec.decoders import BaseDecoder
@@ -77,6 +77,15 @@ class BeliefPropagationOSDDecoder(BaseDecoder):
 
         return new_probs
 
+    def _osd_order_for(self, H) -> int:
+        """OSD order to hand to ldpc for the check matrix H.
+
+        The combination sweep runs over the columns that are not pivots of H,
+        and ldpc reads past its buffers (memory corruption, aborted
+        interpreter) when the order exceeds their number.
+        """
+        return int(min(self._osd_order, H.shape[1] - mod2.rank(H)))
+
     def initialize_decoders(self):
         is_css = self.code.is_css
 
@@ -89,7 +98,7 @@ class BeliefPropagationOSDDecoder(BaseDecoder):
                 ms_scaling_factor=0.,
                 schedule="serial",
                 osd_method="osd_cs",  # Choose from: "osd_e", "osd_cs", "osd0"
-                osd_order=self._osd_order
+                osd_order=self._osd_order_for(self.code.Hx)
             )
 
             self.x_decoder = BpOsdDecoder(
@@ -100,7 +109,7 @@ class BeliefPropagationOSDDecoder(BaseDecoder):
                 ms_scaling_factor=0.,
                 schedule="serial",
                 osd_method="osd_cs",  # Choose from: "osd_e", "osd_cs", "osd0"
-                osd_order=self._osd_order
+                osd_order=self._osd_order_for(self.code.Hz)
             )
 
         else:
@@ -111,7 +120,7 @@ class BeliefPropagationOSDDecoder(BaseDecoder):
                 bp_method=self._bp_method,
                 ms_scaling_factor=0.,
                 osd_method="osd_cs",  # Choose from: "osd_e", "osd_cs", "osd0"
-                osd_order=self._osd_order
+                osd_order=self._osd_order_for(self.code.stabilizer_matrix)
             )
         self._initialized = True
 
